@@ -47,7 +47,11 @@ def m_clap_matches(ex, a, m):
         if name == 'expr-file': return Bool(src == 'file')
         if name == 'filename': return Bool(cfgv(ex, 'json_src', ['stdin', 'file']) == 'file')
         raise Unsupported('ArgMatches::is_present of an undeclared argument ' + name)
-    if name == 'expression': return some(Ptr(Cell(StrV(list(ex.u_expr))), 'ref')) if src == 'arg' else none()
+    if name == 'expression':
+        if src != 'arg': return none()
+        for c in ex.u_expr:          # a command-line argument cannot contain NUL
+            if not isinstance(c, str): ex.assume(c.bv != 0)
+        return some(Ptr(Cell(StrV(list(ex.u_expr))), 'ref'))
     if name == 'expr-file': return some(Ptr(Cell(rstr('E')), 'ref')) if src == 'file' else none()
     if name == 'filename': return some(Ptr(Cell(rstr('J')), 'ref')) if cfgv(ex, 'json_src', ['stdin', 'file']) == 'file' else none()
     if name in ('ast', 'unquoted'): return none()
@@ -119,14 +123,33 @@ def tree_pretty(ex, t, ind):
     return MM.tree_text(ex, t)
 
 def text_of(chars, model=None):
-    return ''.join(c if isinstance(c, str) else chr(MM.cval(c, model)) for c in chars)
+    return ''.join(c if isinstance(c, str) else chr(MM.cval(c, model) if MM.cval(c, model) is not None else 0xFFFD) for c in chars)
+def same_chars(a, b):
+    """two character lists denote the same text on this path: equal concrete characters, identical symbolic ones"""
+    if len(a) != len(b): return False
+    for x, y in zip(a, b):
+        if x is y: continue
+        cx = x if isinstance(x, str) else (chr(x.concrete()) if x.concrete() is not None else None)
+        cy = y if isinstance(y, str) else (chr(y.concrete()) if y.concrete() is not None else None)
+        if cx is None or cy is None:
+            if not (cx is None and cy is None and z3.eq(z3.simplify(x.bv), z3.simplify(y.bv))): return False
+        elif cx != cy: return False
+    return True
+def mk_text(ex, spec):
+    """spec: str, or a list of str pieces and None (= one arbitrary Unicode scalar value)"""
+    if isinstance(spec, str): return list(spec)
+    out = []
+    for p_ in spec:
+        if p_ is None: out.append(SY.sym_chars(ex, 1)[0])
+        else: out.extend(p_)
+    return out
 
 # ------------------------------------------------------------------------------------------ one (expression, JSON text) pair, symbolic environment
 def cli_job(item):
     expr, jtxt, deadline = item
     prog = PROG; eng = Engine(prog); eng.deadline = deadline; S = Summary(); XP.init_decls(prog)
     def body(ex):
-        ex.u_expr = expr; ex.u_json = jtxt; ex.u_events = []; ex.u_cfg = {}
+        ex.u_expr = mk_text(ex, expr); ex.u_json = mk_text(ex, jtxt); ex.u_events = []; ex.u_cfg = {}
         code = 0
         try: ex.call('main', [])
         except ProcessExit as e: code = e.code
@@ -143,21 +166,21 @@ def cli_job(item):
             if not errs: return f'{why}: nothing is printed to stderr'
             return None
         if cfg.get('expr_src') == 'file' and (cfg.get('open_fails:E') or cfg.get('read_fails:E')): return fail('expression file unreadable')
-        c = ex.call('compile', [Ptr(Cell(rstr(expr)))])
+        c = ex.call('compile', [Ptr(Cell(StrV(list(ex.u_expr))))])
         if c.variant != 'Ok': return fail('expression does not compile')
         if cfg.get('ast'):
-            want = list(MM.fmt_debug(ex, ex.call('Expression::as_ast', [Ptr(Cell(c.fields[0].v))]), True)) + ['\n']          # {:#?}
+            want = MM._restore(ex, MM.fmt_debug(ex, ex.call('Expression::as_ast', [Ptr(Cell(c.fields[0].v))]), True)) + ['\n']          # {:#?}
             ex.u_want = ('ok', want)
             if any(r in ('J', 'stdin') for r in reads): return '--ast reads the input'
             if code != 0: return f'--ast: exit status {code}'
             if errs: return '--ast: something is printed to stderr'
-            if text_of(out) != text_of(want): return '--ast: stdout is not the debug rendering of the parse tree followed by a newline'
+            if not same_chars(out, want): return '--ast: stdout is not the debug rendering of the parse tree followed by a newline'
             pr = [e for e in evs if e[0] == 'stdout']
             if len(pr) != 1 or len(pr[0]) < 3 or pr[0][2] != [('debug', True)]: return '--ast: the tree is not printed with the pretty debug format {:#?}'
             return None
         src = 'J' if cfg.get('json_src') == 'file' else 'stdin'
         if (src == 'J' and cfg.get('open_fails:J')) or cfg.get('read_fails:' + src): return fail('input unreadable')
-        v = ex.call('Variable::from_json', [Ptr(Cell(rstr(jtxt)))])
+        v = ex.call('Variable::from_json', [Ptr(Cell(StrV(list(ex.u_json))))])
         if v.variant != 'Ok': return fail('input is not JSON')
         r = ex.call('Expression::search', [Ptr(Cell(c.fields[0].v)), Ptr(Cell(v.fields[0].v), 'rc')])
         if r.variant != 'Ok': return fail('search fails')
@@ -167,11 +190,15 @@ def cli_job(item):
         ex.u_want = ('ok', want)
         if code != 0: return f'success: exit status {code}'
         if errs: return 'success: something is printed to stderr'
-        if text_of(out) != text_of(want): return 'success: stdout is not the ' + ('raw string' if cfg.get('unquoted') and res.variant == 'String' else 'pretty-printed JSON of the search result') + ' followed by a newline'
+        if not same_chars(out, want): return 'success: stdout is not the ' + ('raw string' if cfg.get('unquoted') and res.variant == 'String' else 'pretty-printed JSON of the search result') + ' followed by a newline'
         return None
     def request(ex):
-        cfg = ex.u_cfg
-        return {'op': 'cli', 'expr': expr, 'json': jtxt, 'expr_src': cfg.get('expr_src', 'arg'), 'json_src': cfg.get('json_src', 'stdin'), 'ast': bool(cfg.get('ast')), 'unquoted': bool(cfg.get('unquoted')),
+        cfg = ex.u_cfg; m = None
+        if not (isinstance(expr, str) and isinstance(jtxt, str)):
+            sat, m = eng.check(ex.pc)
+            if not sat: m = None
+        ex.u_model = m
+        return {'op': 'cli', 'expr': text_of(ex.u_expr, m), 'json': text_of(ex.u_json, m), 'expr_src': cfg.get('expr_src', 'arg'), 'json_src': cfg.get('json_src', 'stdin'), 'ast': bool(cfg.get('ast')), 'unquoted': bool(cfg.get('unquoted')),
                 'faults': sorted(k for k, v in cfg.items() if v is True and ('fails' in k))}
     def on_path(ex, r):
         S['paths'] += 1; S['outcomes'][r[0]] += 1
@@ -179,18 +206,19 @@ def cli_job(item):
         if r[0] == 'unsupported': S.inconclusive(f'jp {expr!r}: ' + XP.short_unsupported(r[1])); return
         req = request(ex)
         if r[0] == 'panic': S.cand('c18:panic', f'jp panics: {r[1]}', req, req, expected='no panic'); return
-        if r[1] is not None: S.cand('c18:' + r[1].split(':')[0].replace(' ', '-'), r[1], req, req, expected=('fail' if ex.u_want[0] == 'fail' else text_of(ex.u_want[1]))); return
+        if r[1] is not None: S.cand('c18:' + r[1].split(':')[0].replace(' ', '-'), r[1], req, req, expected=('fail' if ex.u_want[0] == 'fail' else text_of(ex.u_want[1], ex.u_model))); return
         S['vacuity']['jp ' + ex.u_want[0]] = True
         if ex.u_cfg.get('ast'): S['vacuity']['jp --ast'] = True
         if (S['paths'] + SEED) % 7 == 0:
             a = run_jp(req, 'dev')
+            if a.get('skipped'): return
             good = (a['code'] == ex.u_code or (a['code'] != 0 and ex.u_code != 0)) and (bool(a['stderr']) == any(e[0] == 'stderr' for e in ex.u_events))
-            good = good and a['stdout'] == text_of(ex.u_out)
+            good = good and a['stdout'] == text_of(ex.u_out, ex.u_model)
             if good: S['replayed'] += 1
-            else: S['mismatches'].append({'harness': 'jp', 'req': req, 'engine': {'code': ex.u_code, 'stdout': text_of(ex.u_out)}, 'native': a})
+            else: S['mismatches'].append({'harness': 'jp', 'req': req, 'engine': {'code': ex.u_code, 'stdout': text_of(ex.u_out, ex.u_model)}, 'native': a})
             S.sample({'harness': 'jp', **{k: req[k] for k in ('expr', 'json', 'expr_src', 'json_src', 'ast', 'unquoted', 'faults')}, 'exit': a['code'], 'stdout': a['stdout'][:80]}, cap=2)
     n, rest = eng.explore(body, on_path, max_paths=2000)
-    if rest: S.inconclusive(f'jp {expr!r}: cap/deadline after {n} paths')
+    if rest: S.inconclusive(f'jp {expr!r} {jtxt!r}: cap/deadline after {n} paths')
     S.absorb_engine(eng)
     return S
 
@@ -200,6 +228,7 @@ def run_jp(req, profile='dev'):
     """run the real jp with the request's configuration: files in a scratch directory; an open fault = a path that does not exist, a read fault = a
     directory in place of the file (open succeeds, read fails with EISDIR; for stdin the directory's descriptor)"""
     if profile not in JP: JP[profile] = build.cli_binary(profile)
+    if req['expr_src'] == 'arg' and '\0' in req['expr']: return {'code': None, 'stdout': '', 'stderr': '', 'skipped': 'NUL in a command-line argument'}
     d = tempfile.mkdtemp(prefix='jmverif-jp-', dir=os.environ.get('VERIF_SCRATCH') or '/var/tmp')
     try:
         def mk(name, txt, tag):
@@ -245,6 +274,7 @@ def confirm(c, nd, nr):
     req = c['request']; obs = {}; bad = False
     for prof, n in (('dev', nd), ('release', nr)):
         a = run_jp(req, prof)
+        if a.get('skipped'): obs[prof] = a; continue
         # --ast does not depend on the input; the oracle op gets the same flags
         lib = n.request({'op': 'cli_oracle', 'expr': req['expr'], 'json': req['json'], 'unquoted': req['unquoted'], 'ast': req['ast']})
         v = native_verdict(req, a, lib); obs[prof] = {'jp': a, 'library': lib, 'verdict': v}
@@ -263,14 +293,15 @@ def run(run):
     run._progs[()] = PROG; run.engine_names.add('mirsym')
     run.native('dev'); build.cli_binary('dev')
     quick = run.tier == 'quick'; dl = run.deadline
-    if quick:
-        ne, nj = 14, 8
-        es = [EXPRS[(i * 5 + run.seed) % len(EXPRS)] for i in range(ne)]; js = [JSONS[(i * 3 + run.seed) % len(JSONS)] for i in range(nj)]
-        es = list(dict.fromkeys(es + ['a', 'a.', 'abs(a)'])); js = list(dict.fromkeys(js + ['{"a": "str"}', '{']))
-    else: es, js = EXPRS, JSONS
+    es, js = EXPRS, JSONS
     jobs = [(e, j, dl) for e in es for j in js]
+    # texts with arbitrary characters: a string value / a member name / a raw-string literal / a whole one-character text
+    SYM_J = [['{"a": "', None, '"}'], ['"', None, '"'], ['{"a": "x', None, None, '"}'], ['["', None, '", 1]']]
+    SYM_E = [["'", None, "'"], ['`"', None, '"`'], ["'", None, None, "'"]]
+    jobs += [(e, j, dl) for e in ('a', '@', 'to_string(@)', '[0]') for j in (SYM_J if not quick else SYM_J[:2])]
+    jobs += [(e, j, dl) for e in (SYM_E if not quick else SYM_E[:2]) for j in ('{"a": "str"}',)]
     run.bounds = {'configurations': 'every command line the clap declaration admits: expression as argument or through --expr-file, input from stdin or --filename, --unquoted and --ast on/off; File::open and each read_to_string may fail',
-                  'texts': f'{len(es)} expression texts (valid, invalid, failing at run time, with results of every JSON type) x {len(js)} input texts (valid incl. non-ASCII / escapes / 64-bit extremes / 1e100, invalid, empty, trailing characters)',
+                  'texts': f'{len(es)} expression texts (valid, invalid, failing at run time, with results of every JSON type) x {len(js)} input texts (valid incl. non-ASCII / escapes / 64-bit extremes / 1e100, invalid, empty, trailing characters); plus input texts and expressions containing one or two ARBITRARY Unicode scalar values (string value, member name, raw string, literal, whole text)',
                   'functions': 'main, show_result, read_file, get_json and their closures from the MIR of jmespath-cli, calling the library MIR'}
     run.outside = ['clap itself (argument syntax, --help/--version, usage errors for missing / conflicting arguments): represented by its declared contract', 'failing writes to stdout / stderr (closed pipes): println! panics in that case -- not modelled, stated',
                    'serde_json::to_writer_pretty is a model (two-space indentation over the tree the crate\'s Serialize impl emits), differentially tested against the real binary on every replay', 'inputs that are not valid UTF-8']
